@@ -11,12 +11,17 @@ Reading guide:
 * `invalid_name_no_effect`   a rejected name gives an error and the empty effect log;
 * `guard_is_necessary` without validation the same path functions do leave the root;
 * `list_real_dirs`     the listing is exactly the real sub-directories of the root;
+* `Tie.source_*_refines_model`  the Lean translations of `validatePluginName`, `binName`,
+                       `parsePluginName`, `CLIManager.Get`, `CLIManager.Uninstall` (regenerated from the Go
+                       source on every run, `Generated/SrcC16.lean`) compute what the model computes;
 * `model_holds`        every clause of `Holds` for every input (worlds with symbolic links - to files,
                        to directories, to executables, dangling - anywhere, in particular inside a
                        left-over `<root>/<name>`, included).
 -/
 import NotationModel.Lemmas.C16Path
+import NotationModel.Generated.SrcC16
 set_option linter.unusedSimpArgs false
+set_option linter.unusedVariables false
 
 namespace NotationModel.C16
 
@@ -27,11 +32,10 @@ theorem facts_guards :
     Facts.c16GetValidatesFirst = true ∧ Facts.c16UninstallValidatesFirst = true ∧
     Facts.c16InstallValidatesBeforeUse = true := by decide
 
-/-- the validated variable is the one the path is built from; `binName`, `parsePluginName`,
-`SysPath` and the verifier's hand-over have the shape the model gives them -/
+/-- `SysPath` and the verifier's hand-over have the shape the model gives them. (That the validated
+variable is the one the path is built from, and the shapes of `binName` / `parsePluginName`, are no
+longer taken from syntactic facts: section `Tie` proves them of the translated source.) -/
 theorem facts_flow :
-    Facts.c16GetJoinsNameAndBinName = true ∧ Facts.c16UninstallUsesSysPathOfName = true ∧
-    Facts.c16BinNameIsPrefixPlusName = true ∧ Facts.c16ParseCutsPrefix = true ∧
     Facts.c16SysPathIsJoinUnderRoot = true ∧ Facts.c16VerifierPassesAttributeToGet = true := by decide
 
 /-- the rule of `validatePluginName` refuses the empty name, `.`, `..`, and every name with a
@@ -45,11 +49,10 @@ theorem facts_rule_not_excessive :
     Facts.c16SpecialNames.all (fun s => !plainName s) = true ∧
     Facts.c16ForbiddenChars.all (fun c => !plainChar c) = true := by decide
 
-theorem facts_prefix : Facts.c16BinaryPrefix = ['n', 'o', 't', 'a', 't', 'i', 'o', 'n', '-'] := by decide
+/-- the execute bit of a candidate is only set after its name was accepted -/
+theorem facts_chmod_after_validation : Facts.c16SetExecutableAfterValidation = true := by decide
 
-theorem facts_callees :
-    Facts.c16GetCallees = ["validatePluginName", "path.Join", "binName", "m.pluginFS.SysPath", "NewCLIPlugin"] ∧
-    Facts.c16UninstallCallees = ["validatePluginName", "m.pluginFS.SysPath", "os.Stat", "os.RemoveAll"] := by decide
+theorem facts_prefix : Facts.c16BinaryPrefix = ['n', 'o', 't', 'a', 't', 'i', 'o', 'n', '-'] := by decide
 
 /-! ### names -/
 
@@ -422,7 +425,7 @@ theorem holds_install (i : Input) (h : i.op = .install) : Holds i (runInstall i)
   | none => simp [Holds, clauses, effName, h, hsrc, errObs, Clauses.holds]
   | some r =>
     obtain ⟨s, e, nm⟩ := r
-    simp only [g3]
+    simp only [g3, facts_chmod_after_validation]
     cases hv : validName nm with
     | false => simp [Holds, clauses, effName, h, hsrc, errObs, Clauses.holds]
     | true =>
@@ -461,6 +464,7 @@ theorem holds_install (i : Input) (h : i.op = .install) : Holds i (runInstall i)
             · exact o1.2
       · have : (e.kind != Kind.exec) = true := by simp [hk]
         simp [this, Holds, clauses, effName, h, hsrc, errObs, Clauses.holds, hs]
+        exact installSource_under hsrc
 
 /-! ### the property -/
 
@@ -499,12 +503,12 @@ theorem effects_confined (i : Input) (hop : i.op ≠ .list) :
   have hl : (i.op == Op.list) = false := by simpa using hop
   simp only [Holds, clauses, Clauses.holds_cons, Clauses.holds_nil, Bool.and_true, Bool.and_eq_true, hl,
     Bool.false_or] at hm
-  obtain ⟨_, c2, c3, _, c4, _⟩ := hm
+  obtain ⟨_, c2, _, c3, _, c4, _⟩ := hm
   cases hn : effName i with
   | none =>
     simp only [hn] at c2 c3 c4
     simp only [Bool.and_eq_true, List.isEmpty_iff] at c2
-    simp [c2.1, c2.2]
+    simp [c2.1.1, c2.1.2]
   | some n =>
     simp only [hn] at c2 c3 c4
     constructor
@@ -514,7 +518,7 @@ theorem effects_confined (i : Input) (hop : i.op ≠ .list) :
       | true => rfl
       | false =>
         simp only [hs, Bool.false_or, Bool.and_eq_true, List.isEmpty_iff] at c2
-        rw [c2.2] at hp
+        rw [c2.1.2] at hp
         cases hp
     · intro p hp
       refine ⟨n, rfl, ?_, ?_⟩
@@ -522,7 +526,7 @@ theorem effects_confined (i : Input) (hop : i.op ≠ .list) :
         | true => rfl
         | false =>
           simp only [hs, Bool.false_or, Bool.and_eq_true, List.isEmpty_iff] at c2
-          rw [c2.1] at hp
+          rw [c2.1.1] at hp
           cases hp
       · have := List.all_eq_true.1 c4 p hp
         simpa using this
@@ -543,7 +547,7 @@ theorem invalid_name_no_effect (i : Input) (h : validName i.name = false)
 theorem invalid_name_no_effect_install (i : Input) (s e : Node) (nm : Text) (hop : i.op = .install)
     (hsrc : installSource i.fs i.src = some (s, e, nm)) (h : validName nm = false) : run i = errObs := by
   obtain ⟨_, _, g3⟩ := facts_guards
-  simp [run, hop, runInstall, hsrc, g3, h]
+  simp [run, hop, runInstall, hsrc, g3, h, facts_chmod_after_validation, errObs]
 
 /-- every name that is not a single path component is refused by `validatePluginName` -/
 theorem non_component_is_invalid (n : Text) (h : singleComponent n = false) : validName n = false := by
@@ -586,6 +590,9 @@ theorem list_is_pure (i : Input) : (runList i).err = false ∧ (runList i).execu
 
 /-! ### non-vacuity -/
 
+/-- (marker: a failure reported under this name is a failure of one of the `example`s below) -/
+theorem nonvacuity_examples_follow : True := trivial
+
 def sampleFS : List Node :=
   [ ⟨"/a".toList, .dir, 0, []⟩, ⟨"/a/p".toList, .dir, 0, []⟩, ⟨"/a/p/good".toList, .dir, 0, []⟩,
     ⟨"/a/p/good/notation-good".toList, .exec, 2, []⟩, ⟨"/a/p/lnk".toList, .symdir, 0, []⟩, ⟨"/a/p/f".toList, .file, 1, []⟩,
@@ -594,11 +601,11 @@ def sampleFS : List Node :=
 
 /-- a valid, installed name is found and run where it should be -/
 example : run { op := .get, root := "/a/p/".toList, name := "good".toList, src := [], overwrite := false, trusted := true, fs := sampleFS } =
-    { err := false, executed := ["/a/p/good/notation-good".toList], changed := [], listed := [] } := by decide
+    { err := false, executed := ["/a/p/good/notation-good".toList], changed := [], listed := [], chmod := [] } := by decide
 
 /-- uninstall removes exactly the plugin directory -/
 example : run { op := .uninstall, root := "/a/p".toList, name := "good".toList, src := [], overwrite := false, trusted := true, fs := sampleFS } =
-    { err := false, executed := [], changed := ["/a/p/good".toList, "/a/p/good/notation-good".toList], listed := [] } := by decide
+    { err := false, executed := [], changed := ["/a/p/good".toList, "/a/p/good/notation-good".toList], listed := [], chmod := [] } := by decide
 
 /-- the traversal is refused -/
 example : run { op := .uninstall, root := "/a/p".toList, name := "../victim".toList, src := [], overwrite := false, trusted := true, fs := sampleFS } =
@@ -607,7 +614,7 @@ example : run { op := .uninstall, root := "/a/p".toList, name := "../victim".toL
 /-- install from a file creates `<root>/<name>/notation-<name>` and runs only the source -/
 example : run { op := .install, root := "/a/p".toList, name := "new".toList, src := "/src/notation-new".toList, overwrite := false, trusted := true, fs := sampleFS } =
     { err := false, executed := ["/src/notation-new".toList],
-      changed := ["/a/p/new".toList, "/a/p/new/notation-new".toList], listed := [] } := by decide
+      changed := ["/a/p/new".toList, "/a/p/new/notation-new".toList], listed := [], chmod := [] } := by decide
 
 /-- a file called `notation-..` is refused before it is run -/
 example : run { op := .install, root := "/a/p".toList, name := "..".toList, src := "/src/notation-..".toList, overwrite := true, trusted := true, fs := sampleFS } =
@@ -630,30 +637,260 @@ def leftoverFS : List Node :=
 nothing outside `<root>/<name>` is touched -/
 example : run { op := .install, root := "/a/p".toList, name := "new".toList, src := "/src/notation-new".toList, overwrite := false, trusted := true, fs := leftoverFS } =
     { err := false, executed := ["/src/notation-new".toList],
-      changed := ["/a/p/new/LICENSE".toList, "/a/p/new/notation-new".toList], listed := [] } := by decide
+      changed := ["/a/p/new/LICENSE".toList, "/a/p/new/notation-new".toList], listed := [], chmod := [] } := by decide
 
 /-- `Holds` is false of an Install that wrote through the dangling link -/
 example : Holds { op := .install, root := "/a/p".toList, name := "new".toList, src := "/src/notation-new".toList, overwrite := false, trusted := true, fs := leftoverFS }
-    { err := false, executed := ["/src/notation-new".toList], changed := ["/outside/ghost1".toList], listed := [] } = false := by decide
+    { err := false, executed := ["/src/notation-new".toList], changed := ["/outside/ghost1".toList], listed := [], chmod := [] } = false := by decide
 
 /-- `Holds` is false of the unguarded behaviour: the victim directory removed ... -/
 example : Holds { op := .uninstall, root := "/a/p".toList, name := "../victim".toList, src := [], overwrite := false, trusted := true, fs := sampleFS }
-    { err := false, executed := [], changed := ["/a/victim".toList, "/a/victim/notation-victim".toList], listed := [] } = false := by decide
+    { err := false, executed := [], changed := ["/a/victim".toList, "/a/victim/notation-victim".toList], listed := [], chmod := [] } = false := by decide
 
 /-- end to end: the plugin named by the signature runs although the signer is not trusted -/
 example : run { op := .verify, root := "/a/p".toList, name := "good".toList, src := [], overwrite := false, trusted := false, fs := sampleFS } =
-    { err := true, executed := ["/a/p/good/notation-good".toList], changed := [], listed := [] } := by decide
+    { err := true, executed := ["/a/p/good/notation-good".toList], changed := [], listed := [], chmod := [] } := by decide
 
 /-- ... a sentinel outside the root executed ... -/
 example : Holds { op := .verify, root := "/a/p".toList, name := "../victim".toList, src := [], overwrite := false, trusted := false, fs := sampleFS }
-    { err := true, executed := ["/a/victim/notation-victim".toList], changed := [], listed := [] } = false := by decide
+    { err := true, executed := ["/a/victim/notation-victim".toList], changed := [], listed := [], chmod := [] } = false := by decide
 
 /-- ... or a hostile name merely accepted without an error -/
 example : Holds { op := .get, root := "/a/p".toList, name := "good/../good".toList, src := [], overwrite := false, trusted := true, fs := sampleFS }
-    { err := false, executed := [], changed := [], listed := [] } = false := by decide
+    { err := false, executed := [], changed := [], listed := [], chmod := [] } = false := by decide
+
+/-- a directory source whose only candidate lacks the execute permission -/
+def nonexecFS : List Node :=
+  [ ⟨"/a".toList, .dir, 0, []⟩, ⟨"/a/p".toList, .dir, 0, []⟩,
+    ⟨"/srcdir".toList, .dir, 0, []⟩, ⟨"/srcdir/notation-..".toList, .file, 2, []⟩,
+    ⟨"/srcx".toList, .dir, 0, []⟩, ⟨"/srcx/notation-x".toList, .file, 2, []⟩ ]
+
+/-- an accepted name: the candidate is made executable (and then cannot be run: it is a data file) -/
+example : run { op := .install, root := "/a/p".toList, name := "x".toList, src := "/srcx".toList, overwrite := false, trusted := true, fs := nonexecFS } =
+    { err := true, executed := [], changed := [], listed := [], chmod := ["/srcx/notation-x".toList] } := by decide
+
+/-- a refused name: not even a permission changes -/
+example : run { op := .install, root := "/a/p".toList, name := "..".toList, src := "/srcdir".toList, overwrite := false, trusted := true, fs := nonexecFS } =
+    errObs := by decide
+
+/-- `Holds` is false of an Install that made `notation-..` executable before refusing the name -/
+example : Holds { op := .install, root := "/a/p".toList, name := "..".toList, src := "/srcdir".toList, overwrite := false, trusted := true, fs := nonexecFS }
+    { err := true, executed := [], changed := [], listed := [], chmod := ["/srcdir/notation-..".toList] } = false := by decide
 
 /-- and of a listing that reports a symbolic link -/
 example : Holds { op := .list, root := "/a/p".toList, name := [], src := [], overwrite := false, trusted := true, fs := sampleFS }
-    { err := false, executed := [], changed := [], listed := ["good".toList, "lnk".toList] } = false := by decide
+    { err := false, executed := [], changed := [], listed := ["good".toList, "lnk".toList], chmod := [] } = false := by decide
 
+/-! ### tie to the translated source -/
+
+namespace Tie
+open NotationModel.Src
+
+/-- the rule of `validatePluginName` written out by hand (no extracted fact involved) -/
+def acceptsName (n : Text) : Bool :=
+  n != [] && n != dot && n != dotdot && !(n.any fun c => c == '/' || c == '\\' || c == '\x00')
+
+/-- the extracted rule is exactly that rule (whatever the order of its disjuncts / characters) -/
+theorem facts_rule_exact :
+    Facts.c16SpecialNames.all (fun s => s == [] || s == dot || s == dotdot) = true ∧
+    Facts.c16ForbiddenChars.all (fun c => c == '/' || c == '\\' || c == '\x00') = true := by decide
+
+theorem validName_eq_acceptsName (n : Text) : validName n = acceptsName n := by
+  obtain ⟨f1, f2, f3, f4, f5, f6⟩ := facts_rule
+  obtain ⟨e1, e2⟩ := facts_rule_exact
+  simp only [List.all_eq_true] at e1 e2
+  rw [Bool.eq_iff_iff]
+  simp only [validName, acceptsName, Bool.and_eq_true, Bool.not_eq_true', List.contains_eq_mem, List.any_eq_false,
+    decide_eq_false_iff_not, decide_eq_true_eq, bne_iff_ne, ne_eq, Bool.or_eq_true, beq_iff_eq]
+  constructor
+  · rintro ⟨h1, h2⟩
+    refine ⟨⟨⟨?_, ?_⟩, ?_⟩, ?_⟩
+    · intro e; exact h1 (e ▸ f1)
+    · intro e; exact h1 (e ▸ f2)
+    · intro e; exact h1 (e ▸ f3)
+    · intro c hc hh
+      rcases hh with (hh | hh) | hh <;> subst hh
+      · exact h2 _ hc f4
+      · exact h2 _ hc f6
+      · exact h2 _ hc f5
+  · rintro ⟨⟨⟨h1, h2⟩, h3⟩, h4⟩
+    constructor
+    · intro hm
+      have := e1 n hm
+      simp at this
+      rcases this with (e | e) | e
+      · exact h1 e
+      · exact h2 e
+      · exact h3 e
+    · intro c hc hm
+      have := e2 c hm
+      simp at this
+      exact h4 c hc this
+
+theorem str_beq (s t : String) : (s == t) = (s.toList == t.toList) := by
+  rw [Bool.eq_iff_iff]; simp [String.toList_inj]
+
+/-- TIE (translated source): the Lean translation of `plugin.validatePluginName`, regenerated from
+plugin/manager.go on every run (`Generated/SrcC16.lean`), accepts - for EVERY string - exactly the
+names the model's `validName` accepts. -/
+theorem source_validatePluginName_refines_model (s : String) :
+    (plugin.validatePluginName s).isNone = validName s.toList := by
+  rw [validName_eq_acceptsName]
+  unfold plugin.validatePluginName acceptsName
+  simp only [Id.run, GoLite.containsAny, str_beq]
+  simp
+  have e : (s = "") = (s.toList = []) := by simp
+  (repeat' split) <;> (try simp [pure, dot, dotdot]) <;> (try simp only [e] at *) <;> (try grind)
+
+/-- the error it returns is a plain `fmt.Errorf` error -/
+theorem source_validatePluginName_error (s : String) (h : validName s.toList = false) :
+    plugin.validatePluginName s = some ⟨"error"⟩ := by
+  have := source_validatePluginName_refines_model s
+  rw [h] at this
+  revert this
+  unfold plugin.validatePluginName
+  simp only [Id.run]
+  (repeat' split) <;> simp [pure, GoLite.errorf]
+
+/-- TIE: the translated `binName` is the model's `binName` -/
+theorem source_binName_refines_model (s : String) :
+    (plugin.binName s).toList = binName s.toList := by
+  unfold plugin.binName
+  simp [Id.run, GoLite.add_toList, plugin.BinaryPrefix, binName, pure]
+
+/-- TIE: the translated `parsePluginName` is the model's `parsePluginName` -/
+theorem source_parsePluginName_refines_model (f : String) :
+    plugin.parsePluginName f =
+      match parsePluginName f.toList with
+      | some r => (String.ofList r, none)
+      | none => ("", some ⟨"error"⟩) := by
+  unfold plugin.parsePluginName parsePluginName
+  simp only [Id.run, GoLite.cutPrefix, GoLite.trimPrefix, GoLite.hasPrefix, plugin.BinaryPrefix, str_beq]
+  by_cases hp : Facts.c16BinaryPrefix.isPrefixOf f.toList = true
+  · by_cases hr : (List.drop Facts.c16BinaryPrefix.length f.toList) = []
+    · first
+        | (simp [hp, hr, pure, GoLite.errorf]; done)
+        | (simp only [hp, hr]; (repeat' split) <;> simp_all [pure, GoLite.errorf])
+    · first
+        | (simp [hp, hr, pure, GoLite.errorf]; done)
+        | (simp only [hp, hr]; (repeat' split) <;> simp_all [pure, GoLite.errorf])
+  · first
+      | (simp [hp, pure, GoLite.errorf]; done)
+      | (simp only [hp]; (repeat' split) <;> simp_all [pure, GoLite.errorf])
+
+/-- TIE: the translated `CLIManager.Get` - for EVERY manager value, every behaviour of the oracles
+(`SysPath`, `path.Join`, `NewCLIPlugin` = stat + regular-file test) and every name: a name the
+model refuses is answered with an error before any oracle is consulted (the result does not depend
+on them); an accepted name is joined with `binName(name)`, handed to `SysPath`, and the resulting
+path is what `NewCLIPlugin` gets. -/
+theorem source_Get_refines_model (m : plugin.CLIManager) (w : plugin.World) (name : String) :
+    plugin.CLIManager.Get m w () name =
+      if validName name.toList then
+        let p := m.pluginFS.SysPath (w.pathJoin name (plugin.binName name))
+        if p.2.isSome then (none, p.2) else w.NewCLIPlugin () name p.1
+      else (none, some ⟨"error"⟩) := by
+  unfold plugin.CLIManager.Get
+  simp only [Id.run]
+  cases hv : validName name.toList with
+  | false => simp [source_validatePluginName_error name hv, pure]
+  | true =>
+    have hn : plugin.validatePluginName name = none := by
+      have := source_validatePluginName_refines_model name
+      rw [hv] at this
+      simpa using this
+    simp only [hn]
+    (repeat' split) <;> simp_all [pure]
+
+/-- TIE: the translated `CLIManager.Uninstall`: refused names first, then `SysPath(name)`, then
+`os.Stat` of that path, then `os.RemoveAll` of that same path - for every behaviour of the oracles. -/
+theorem source_Uninstall_refines_model (m : plugin.CLIManager) (w : plugin.World) (name : String) :
+    plugin.CLIManager.Uninstall m w () name =
+      if validName name.toList then
+        let p := m.pluginFS.SysPath name
+        if p.2.isSome then p.2
+        else if (w.Stat p.1).2.isSome then (w.Stat p.1).2
+        else w.RemoveAll p.1
+      else some ⟨"error"⟩ := by
+  unfold plugin.CLIManager.Uninstall
+  simp only [Id.run]
+  cases hv : validName name.toList with
+  | false => simp [source_validatePluginName_error name hv, pure]
+  | true =>
+    have hn : plugin.validatePluginName name = none := by
+      have := source_validatePluginName_refines_model name
+      rw [hv] at this
+      simpa using this
+    simp only [hn]
+    (repeat' split) <;> simp_all [pure]
+
+/-- the oracles as the model has them: `SysPath` and `path.Join` are the lexical functions of
+`Model/C16.lean`, `NewCLIPlugin` / `os.Stat` look the path up in the abstract world -/
+def modelMgr (root : Text) : plugin.CLIManager :=
+  { pluginFS := { SysPath := fun p => (String.ofList (sysPath root [p.toList]), none) } }
+
+def modelWorld (fs : List Node) : plugin.World :=
+  { pathJoin := fun a b => String.ofList (join [a.toList, b.toList]),
+    NewCLIPlugin := fun _ nm p =>
+      match lookup fs p.toList with
+      | none => (none, some ⟨"error"⟩)
+      | some n =>
+        if n.kind = .symnone then (none, some ⟨"error"⟩)
+        else if n.kind.statRegular then (some ⟨nm, p⟩, none) else (none, some ⟨"ErrNotRegularFile"⟩),
+    Stat := fun p =>
+      match lookup fs p.toList with
+      | none => ((), some ⟨"error"⟩)
+      | some n => if n.kind = .symnone then ((), some ⟨"error"⟩) else ((), none),
+    RemoveAll := fun _ => none }
+
+/-- TIE, instantiated: with the model's lexical oracles the translated `Get` succeeds exactly when
+the model's `mgrGet` does, and the plugin it returns has the model's executable path
+`exePath root name` (= `<root>/<name>/notation-<name>` by `comps_exePath`). -/
+theorem source_Get_same_path_as_model (root : Text) (fs : List Node) (name : String) :
+    (plugin.CLIManager.Get (modelMgr root) (modelWorld fs) () name).1.map (fun p => p.path.toList) =
+      match mgrGet fs root name.toList with
+      | .ok _ => some (exePath root name.toList)
+      | .error _ => none := by
+  rw [source_Get_refines_model]
+  cases hv : validName name.toList with
+  | false => simp [mgrGet_invalid hv]
+  | true =>
+    rw [mgrGet_valid hv]
+    simp only [modelMgr, modelWorld, exePath, source_binName_refines_model, String.toList_ofList, if_true,
+      Option.isSome_none, Bool.false_eq_true, if_false]
+    cases hl : lookup fs (sysPath root [join [name.toList, binName name.toList]]) with
+    | none => simp
+    | some n => (repeat' split) <;> simp_all
+
+/-- TIE, instantiated: the translated `Uninstall` fails exactly when the model's does, and what it
+stats and removes is the model's `dirPath root name` (= `<root>/<name>` by `comps_dirPath`). -/
+theorem source_Uninstall_same_decision_as_model (i : Input) (name : String) (h : i.name = name.toList) :
+    (plugin.CLIManager.Uninstall (modelMgr i.root) (modelWorld i.fs) () name).isSome = (runUninstall i).err := by
+  obtain ⟨_, g2, _⟩ := facts_guards
+  rw [source_Uninstall_refines_model]
+  unfold runUninstall
+  rw [g2, h]
+  cases hv : validName name.toList with
+  | false => simp [errObs]
+  | true =>
+    simp only [modelMgr, modelWorld, dirPath, String.toList_ofList, if_true, Option.isSome_none, Bool.false_eq_true,
+      if_false, Bool.not_true, Bool.and_false]
+    cases hl : lookup i.fs (sysPath i.root [name.toList]) with
+    | none => simp [errObs]
+    | some n => (repeat' split) <;> simp_all [errObs]
+
+/-- (marker: a failure reported under this name is a failure of one of the `example`s below) -/
+theorem nonvacuity_examples_follow : True := trivial
+
+/-- non-vacuity: the translated functions run -/
+example : plugin.validatePluginName "../victim" = some ⟨"error"⟩ ∧ plugin.validatePluginName "my.plugin" = none ∧
+    plugin.validatePluginName ".." = some ⟨"error"⟩ ∧ plugin.validatePluginName "a\\b" = some ⟨"error"⟩ := by decide
+example : plugin.parsePluginName "notation-.." = ("..", none) ∧ (plugin.parsePluginName "notation-").2.isSome = true ∧
+    plugin.binName "x" = "notation-x" := by decide
+example : (plugin.CLIManager.Get (modelMgr "/a/p".toList) (modelWorld sampleFS) () "good").1 =
+    some ⟨"good", "/a/p/good/notation-good"⟩ := by decide
+example : plugin.CLIManager.Get (modelMgr "/a/p".toList) (modelWorld sampleFS) () "../victim" = (none, some ⟨"error"⟩) := by decide
+example : plugin.CLIManager.Uninstall (modelMgr "/a/p".toList) (modelWorld sampleFS) () "../victim" = some ⟨"error"⟩ ∧
+    plugin.CLIManager.Uninstall (modelMgr "/a/p".toList) (modelWorld sampleFS) () "good" = none := by decide
+
+end Tie
 end NotationModel.C16
